@@ -633,6 +633,10 @@ func TestVerifC02(t *testing.T) {
 	// cancelled (client disconnect); A is resumed and, if acknowledged, the
 	// block must be retrievable from a new server on the same directory.
 	c02Overlap(t, run, hs, newDir, &judgeMu, "C02")
+
+	// ---- an abandoned GET followed by a PUT that reuses its pooled buffer;
+	// short-bodied PUT after the same block went through the buffer
+	vkSharedBuffers(t, run, hs, newDir, &judgeMu, "C02")
 }
 
 func c02Overlap(t *testing.T, run *verifkit.Run, hs *vkHTTP, newDir func() string, judgeMu *sync.Mutex, prop string) {
